@@ -105,6 +105,10 @@ func (fv *FuncVerifier) takeEdge(st *State, from, to *ssa.BasicBlock) bool {
 				fv.addOb(st, "decr", fmt.Sprintf("decr:L%d@b%d", li.ord, from.Index), And(Ge(d0, I(0)), Lt(d, d0)), li.lc.Decreases.Src, token.NoPos)
 			}
 		}
+		// loop frame: the function's modifies clause is an implicit invariant of every loop
+		if !li.havocAll {
+			fv.checkFrameAt(st, fmt.Sprintf("L%d@b%d", li.ord, from.Index), token.NoPos)
+		}
 		return false
 	}
 	// loop entry
@@ -142,7 +146,8 @@ func (fv *FuncVerifier) havocLoop(st *State, li *loopInfo) {
 		st.havocAll()
 	} else {
 		for p := range li.prefixes {
-			st.havocPrefix(p)
+			ep := st.havocPrefix(p)
+			fv.enc.loopEpochs[ep] = true
 		}
 		if li.allocs {
 			nh := fv.enc.fresh("hwm", SInt)
@@ -204,6 +209,8 @@ func (fv *FuncVerifier) step(st *State, b *ssa.BasicBlock, ins ssa.Instruction) 
 			return nil, false
 		}
 		st.cells[x] = enc.zero(et)
+		st.seq++
+		st.allocSeq[x] = st.seq
 		delete(st.promoted, x)
 		st.regs[x] = Value{Typ: x.Type(), L: []Term{I(0)}, Place: &Place{Kind: PLocal, Typ: et, Cell: x}}
 	case *ssa.Store:
@@ -344,6 +351,12 @@ func (fv *FuncVerifier) step(st *State, b *ssa.BasicBlock, ins ssa.Instruction) 
 		st2 := st.clone()
 		st2.assume(Not(c))
 		st2.trace = append(st2.trace, fmt.Sprintf("b%d:else", b.Index))
+		if fv.mergeMode {
+			fv.fork = &forkOut{st: st2, blk: b.Succs[1]}
+			st.assume(c)
+			st.trace = append(st.trace, fmt.Sprintf("b%d:then", b.Index))
+			return b.Succs[0], false
+		}
 		if fv.takeEdge(st2, b, b.Succs[1]) {
 			st2.prev = b
 			fv.runBlock(st2, b.Succs[1])
